@@ -33,7 +33,8 @@ from vlib.pat import Pat, returned
 from vlib.front import unparse, dotted, const_value, AnchorMissing
 
 TR = 'phylib/io/traces.py'
-FLOOR = 16
+FLOOR = 10          # decided obligations below this = the analysis lost its footing (exit 2); clean tree: 27
+RULES = ('C01.D1', 'C01.D2', 'C01.H1', 'C01.P1', 'C01.S1', 'C01.S2', 'C01.S3', 'C01.S4', 'C01.T1', 'C01.T2', 'C01.U1')          # every obligation group must report (holds / violated / undecided): a group that vanishes silently is an analysis error
 ATTRS = ['_ops', 'sample_rate', 'dtype', 'n_channels', 'part_bounds', 'chunk_bounds']
 EXPLANATION = ('proto/sym engines over phylib/io/traces.py: the dispatch function is walked over all outcomes of its type / extension tests; '
                'each reader constructor is walked with its super chain inlined (definite assignment); part_bounds and _get_part are tied to '
@@ -255,7 +256,15 @@ def t2_d1_readers(ctx):
                         continue
                     held = st.heap.get((me, store[3]))
                     if held is None or pb != T('call', '_get_part_bounds', C(0), held):
-                        ok, why = False, 'part_bounds = %s is not computed from self.%s, the sequence _get_part indexes' % (show(pb)[:60], store[3])
+                        # composition of the constructor and its helper: part_bounds = [0] + running sums of the first-axis sizes of the stored sequence, whichever of
+                        # the two computes the sizes
+                        comp_v = _part_bounds_composite(init, store[3])
+                        if comp_v == 'good':
+                            continue
+                        if comp_v == 'bad':
+                            ok, why = False, 'part_bounds = %s is not computed from self.%s, the sequence _get_part indexes' % (show(pb)[:60], store[3])
+                        else:
+                            ok, why = (None if ok else ok), 'part_bounds = %s: relation to self.%s, the sequence _get_part indexes, not recognised' % (show(pb)[:60], store[3])
                 elif is_t(rv) and rv[1] == 'index' and rv[3] == sub_p and is_t(rv[2]) and rv[2][1] == 'attr' and rv[2][2] == me:
                     h = st.heap.get((me, rv[2][3]))
                     cands = [] if h is None else [T('list', C(0), T('index', T('attr', h, 'shape'), C(0))), T('list', C(0), T('attr', h, 'n_samples')),
@@ -264,8 +273,11 @@ def t2_d1_readers(ctx):
                         ok, why = False, 'part_bounds = %s is not [0, number of rows of self.%s], the object _get_part reads' % (show(pb)[:70], rv[2][3])
                 else:
                     ok, why = False, '_get_part returns %s, not storage[sub-index]' % show(rv)[:60]
-        ctx.check(ok, 'C01.D1', gp, cls.name, '%s: part_bounds describe exactly the storage that _get_part indexes with (part, sub-index)' % cls.name,
-                  '%s: %s' % (cls.name, why or 'part_bounds / _get_part not recognised'))
+        if ok is None:
+            ctx.undecided('C01.D1', gp, '%s: %s' % (cls.name, why))
+        else:
+            ctx.check(ok, 'C01.D1', gp, cls.name, '%s: part_bounds describe exactly the storage that _get_part indexes with (part, sub-index)' % cls.name,
+                      '%s: %s' % (cls.name, why or 'part_bounds / _get_part not recognised'))
         # every file of a multi-file recording is mapped with the SAME sample type, channel count, header offset and mode
         maps = []
         for val, st in normal:
@@ -352,7 +364,7 @@ def s1_memmap(ctx):
     I.pure |= {'np.dtype', 'Path', 'np.memmap', 'logger.warning'}
     outs = I.run(fi)
     ctx.analysed['paths'] += len(outs)
-    probs = {}
+    probs, unds = {}, {}
     n = 0
     for kind, val, st in outs:
         if kind != 'return':
@@ -383,12 +395,19 @@ def s1_memmap(ctx):
         want = Lin.atom(('fdiv', I.nf(size) - I.nf(off), I.nf(item).scale(1) if False else I.nf(T('Mult', item, nch))))
         alt = Lin.atom(('fdiv', I.nf(size) - I.nf(off), I.nf(T('Mult', nch, item))))
         if not (equal(ns, want) or equal(ns, alt)):
-            probs.setdefault('n_samples = %s, expected (file size - offset) // (itemsize * n_channels)' % ns, 1)
+            # a difference is definite only between closed forms over the file size, the offset, the item size and the channel count
+            if I.interpreted(ns):
+                probs.setdefault('n_samples = %s, expected (file size - offset) // (itemsize * n_channels)' % ns, 1)
+            else:
+                unds.setdefault('n_samples = %s: relation to (file size - offset) // (itemsize * n_channels) not recognised' % ns, 1)
         if not equal(nc, I.nf(nch)):
             probs.setdefault('second dimension of the map is %s, not n_channels' % nc, 1)
     if probs:
         for msg in list(probs)[:3]:
             ctx.violated('C01.S1', fi, msg[:150], msg)
+    elif unds:
+        for msg in list(unds)[:2]:
+            ctx.undecided('C01.S1', fi, msg)
     else:
         ctx.holds('C01.S1', fi, 'np.memmap(path, dtype, mode, offset, shape=((size - offset) // (itemsize * n_channels), n_channels)) on all %d paths' % n, '_memmap_flat')
 
@@ -832,6 +851,32 @@ def p1_getitem(ctx):
                           '`%s` is evaluated in boolean context for any row selector: reader[index_array, cols] raises ValueError (ambiguous truth value)' % unparse(c))
     if not found:
         ctx.holds('C01.H1', gi, 'no equality test between the row selector and a slice object', '__getitem__', nontrivial=False)
+
+
+def _part_bounds_composite(init, store):
+    """'good' / 'bad' / None for `self.part_bounds = <helper>(X)` in a constructor, judged on the helper's returned expression with X substituted."""
+    asg = [a for a in init.nodes(ast.Assign) if Pat().m('self.part_bounds', a.targets[0])]
+    if len(asg) != 1:
+        return None
+    e = init.expand(asg[0].value)
+    if isinstance(e, ast.Call):
+        c = init.inline_call(asg[0].value if isinstance(asg[0].value, ast.Call) else e)
+        e = c if c is not None else e
+    st_ = 'self.%s' % store
+    sizes = ['[V_a.shape[0] for V_a in %s]' % st_, '[len(V_a) for V_a in %s]' % st_, '[V_a.shape[0] for V_a in list(%s)]' % st_]
+    goods = [f_ % z_ for z_ in sizes for f_ in ('[0] + list(np.cumsum(%s))', '[0] + np.cumsum(%s).tolist()', 'np.concatenate(([0], np.cumsum(%s)))', 'list(np.concatenate(([0], np.cumsum(%s))))',
+                                                'np.r_[0, np.cumsum(%s)]', '[0] + list(np.cumsum(%s, REST))')]
+    if Pat().any(goods, e):
+        return 'good'
+    # the same construction over a re-ordered / partial version of the stored sequence
+    for alt in ('%s[::-1]' % st_, 'reversed(%s)' % st_, 'sorted(%s)' % st_, '%s[1:]' % st_, '%s[:-1]' % st_, '%s[:1]' % st_):
+        if Pat().any([g_.replace(st_, alt) for g_ in goods], e):
+            return 'bad'
+    names = {n.id for n in ast.walk(e) if isinstance(n, ast.Name)}
+    attrs = {unparse(n) for n in ast.walk(e) if isinstance(n, ast.Attribute) and isinstance(n.value, ast.Name) and n.value.id == 'self'}
+    if attrs and st_ not in attrs and names <= {'self', 'np', 'list', 'len'} | {n.id for n in ast.walk(e) if isinstance(n, ast.Name) and isinstance(n.ctx, ast.Store)}:
+        return 'bad'            # built from another attribute of the reader
+    return None
 
 
 def run(ctx):
